@@ -53,6 +53,9 @@ camera_open(const struct DeviceManager* system,
 
     return self;
 Error:
+    // The driver opened the device: hand it back before reporting failure.
+    if (self)
+        camera_close(self);
     return 0;
 }
 
